@@ -192,6 +192,37 @@ def check_subtype(x: int, y: int) -> bool:
     return True
 
 
+def check_ref_ident(x: int, y: int, cond: bool) -> bool:
+    """
+    pre: -1 <= x < 2 and -1 <= y < 2
+    post: POST(_)
+    """
+    # K.Id is identifying AND referential (refers to T.Id); K instances related to T x / y or to none.
+    # an unrelated K has a null identifying value whatever the conditionality of the referred end
+    global LAST_DIFF
+    x = cs(x, -1, 1); y = cs(y, -1, 1)
+    cond = True if cond else False
+    with notrace():
+        m = xtuml.MetaModel(xtuml.IntegerGenerator())
+        m.define_class('T', [('Id', UIDT)]); m.define_class('K', [('Id', UIDT), ('v', 'INTEGER')])
+        m.define_association(1, 'K', ['Id'], True, True, '', 'T', ['Id'], False, cond, '').formalize()
+        m.define_unique_identifier('K', 1, 'Id')
+        m.define_unique_identifier('T', 1, 'Id')
+        T = [m.new('T'), m.new('T')]
+        K = [m.new('K'), m.new('K')]
+        for k, t in zip(K, (x, y)):
+            if t >= 0:
+                xtuml.relate(k, T[t], 1)
+    got = xtuml.check_uniqueness_constraint(m, 'K')
+    got_assoc = xtuml.check_association_integrity(m, 1)
+    case('ref_ident', x, y, cond)
+    exp = (1 if x < 0 else 0) + (1 if y < 0 else 0) + (1 if x == y else 0)     # nulls + the second repeating the first (two nulls are equal too)
+    exp_assoc = 0 if cond else (1 if x < 0 else 0) + (1 if y < 0 else 0)
+    if got != exp or got_assoc != exp_assoc or m.is_consistent() is not (exp == 0 and exp_assoc == 0):
+        LAST_DIFF = ('referential identifier', got, exp, got_assoc, exp_assoc, x, y, cond); return False
+    return True
+
+
 OPTS = [[], ['-r', '1'], ['-r', '12'], ['-R', '1', '-r', '12'], ['-k', 'A'], ['-k', 'B'], ['-k', 'A', '-k', 'B'],
         ['-r', '1', '-k', 'B'], ['-r', '2']]
 NOPT = len(OPTS)
